@@ -127,6 +127,10 @@ def find_body(ex: Extraction, name: str) -> Optional[BodyDef]:
     for b in ex.of(BodyDef):
         if b.owner == want or strip_index(b.owner) == want:
             return b
+    # one definition shared by several methods: `for method in (self.a, self.b): @def_method(m, method, ...)`
+    for b in ex.of(BodyDef):
+        if b.owner[0] == "b" and b.owner[2][0] in ("tuple", "list") and want in b.owner[2][1:]:
+            return b
     return None
 
 
